@@ -374,6 +374,7 @@ func (r *reader) getMessages() (*message.Reader, error) {
 		return msgs, nil
 	}
 	r.messagesMu.RUnlock()
+	verifhook.Pause("reader.messages.before-open")
 
 	r.messagesMu.Lock()
 	defer r.messagesMu.Unlock()
